@@ -292,7 +292,8 @@ class Style(str):
         return self.apply(self.value)
 
     def __format__(self, format_spec: str) -> str:
-        return self.apply(str(self), fmt=format_spec)
+        # NOTE: format the text, then style it (str(self) is styled already)
+        return self.apply(self.value, fmt=format_spec)
 
     def __repr__(self) -> str:
         text = self.value
